@@ -437,12 +437,12 @@ def run(ck):
                       "value aliases the stored one.  A case counts as non-trivial when it is distinct and contains a parse/load/set.")
     if not ck.quick():
         ck.leanchecker(PROP_MODULES + ["UsualProofs.C18." + m for m in
-                                       ("View", "Ref", "LineSpec", "Scan", "NumP", "ConfigP", "LoadP")])
-    ck.cov["partial"] = ["set_get_roundtrip_time_partial: the round trip of time values under the concrete binary64 "
-                         "model (strtodC/fmtG) is kernel-evaluated on a finite list of values; the statement for all "
-                         "values with <= 6 significant digits needs floating-point error analysis (full statement kept "
-                         "in a comment next to it); with strtod/%g as parameters it is proved in general "
-                         "(set_get_roundtrip_time)",
+                                       ("View", "Ref", "LineSpec", "Scan", "NumP", "ConfigP", "LoadP", "Float", "StrtodP")])
+    ck.cov["partial"] = ["set_get_roundtrip_time_partial: the setter half is proved for all values (time_usec_exact: "
+                         "for every n < 2^40 us the nearest double converts back to n; set_time_usec_every_decimal_spelling: "
+                         "the concrete strtod model on every plain decimal spelling); the getter half under the concrete "
+                         "%g model (fmtG prints the canonical spelling) is still a kernel evaluation on a finite list; with "
+                         "strtod/%g as parameters the round trip is proved in general (set_get_roundtrip_time)",
                          "cf_set_filename: $HOME / getpwnam / getpwuid are parameters (Env) of set_filename and set_filename_user"]
     rng = vf.SplitMix(ck.seed)
     nontriv = lambda c: any(l.split()[0] in ("parse", "load", "set", "setself") for l in c)
